@@ -101,6 +101,6 @@ func ribRun(args []string) error {
 		walks++
 	}
 	rn.Close()
-	fmt.Printf("{\"walks\":%d,\"calls\":%d,\"events\":%d,\"panics\":%d}\n", walks, rn.Calls, sink.N, rn.Panics)
+	fmt.Printf("{\"walks\":%d,\"calls\":%d,\"events\":%d,\"panics\":%d,\"hangs\":%d}\n", walks, rn.Calls, sink.N, rn.Panics, rn.Hangs)
 	return nil
 }
